@@ -101,6 +101,7 @@ fn profile_focused(prop: &str, first_gen: bool, tier: &str) -> Profile {
         prober_weights: w(PROBER),
         script_bias: 0,
         prefill: true,
+        first_gen,
     };
     match prop {
         "C01" => Profile { name: "C01", ..base },
@@ -398,6 +399,24 @@ fn profile_focused(prop: &str, first_gen: bool, tier: &str) -> Profile {
             pays: vec![Pay::P1, Pay::P4, Pay::P8, Pay::P16, Pay::P40, Pay::PR, Pay::Z0, Pay::U32, Pay::U64, Pay::PBIG],
             ..base
         },
+        // C18 on the controlled runtime: ONE program thread (+ prober).  The lock-step engine
+        // runs on the unhooked crate and can only report a call that never returns as a hang
+        // (inconclusive); here the same single-thread histories run under the scheduler, so
+        // such a call is a deterministic livelock / illegitimately stuck operation, and the
+        // complete result vector must be explainable by the atomic reference channel (for one
+        // thread that is plain sequential equivalence).
+        "C18" => Profile {
+            name: "C18",
+            threads: (1, 1),
+            max_ops: if thorough { 14 } else { 10 },
+            weights: cat(&[SENDS, RECVS, HANDLES]),
+            pays: vec![Pay::P4, Pay::P8, Pay::P16, Pay::PR],
+            caps: vec![Cap::N(0), Cap::N(1), Cap::N(2), Cap::N(3), Cap::Unbounded],
+            prober_ops: 3,
+            max_sched: 16,
+            prefill: false,
+            ..base
+        },
         "C03" => Profile {
             name: "C03",
             threads: (2, 4),
@@ -606,6 +625,10 @@ pub fn accepts(prop: &str, v: &Viol, ops: &[OpRec]) -> bool {
         ]) || (p == "try_waited" && opk.map(|o| o.k == K::Drain).unwrap_or(false))
             || (p == "fifo" && opk.map(|o| o.k == K::Drain).unwrap_or(false)),
         "C03" => in_list(&["not_explainable_by_atomic_channel"]),
+        "C18" => {
+            in_list(&["not_explainable_by_atomic_channel", "quiescent_observer_mismatch", "quiescent_try_send_mismatch", "quiescent_drain_mismatch", "count_mismatch"])
+                || in_list(PROGRESS)
+        }
         _ => {
             let _ = kind_filter;
             false
@@ -635,6 +658,7 @@ pub fn nontrivial(prop: &str, f: &Feat) -> bool {
         "C16" => g("spurious_polls") >= 1 || g("waker_changes") >= 1 || g("stream_second_wait") >= 1,
         "C19" => g("drain_took_blocked_sender") >= 1,
         "C03" => g("explained") >= 1 && g("overlapping_ops") >= 1 && g("preemptive") >= 1,
+        "C18" => g("explained") >= 1 && g("ops") >= 5 && (g("reg_send_sync") + g("reg_send_async") + g("reg_recv_sync") + g("reg_recv_async") >= 1),
         _ => true,
     }
 }
@@ -657,6 +681,7 @@ pub fn rule_text(prop: &str) -> &'static str {
         "C15" => "fault enumeration over cancellation points: generated async scripts drop futures/streams after k polls and n yield points; non-trivial = a future was dropped after it had been polled (pending or claimed); distinct = hash(program, thread sequence)",
         "C16" => "generated poll scripts (spurious polls, waker changes, poll after completion, repeated stream waits) with concurrent peers; non-trivial = a spurious poll, a waker change or a second wait on one stream happened; distinct = hash(program, thread sequence)",
         "C19" => "generated drain_into calls with sentinel-prefixed vectors racing blocked/pending senders; non-trivial = a drain took at least one value from a blocked or pending sender; distinct = hash(program, thread sequence)",
+        "C18" => "single-thread programs (one program thread, <= 10 calls over the whole API, + prober) on the controlled runtime: the complete result vector must be explainable by the atomic reference channel (sequential equivalence for one thread) and no call may livelock or stay stuck illegitimately; non-trivial = at least 5 calls, an operation registered in the waiting list, and an explanation was found; distinct = hash(program, thread sequence)",
         "C03" => "small generated programs (2-3 threads x <= 4 ops + prober) over the whole API incl. observers, close and handle drops, run under fine-grained generated schedules; the complete vector of observed results (observer reads split into their separate lock acquisitions) is searched for an explaining interleaving of atomic reference-channel steps (register / complete / timeout / cancel steps for blocking operations), constrained only by per-thread program order; non-trivial = operations of different threads overlapped in a preemptive schedule and an explanation was found (so the search was exercised); distinct = hash(program, thread sequence); searches that exhaust their 300k-state budget are inconclusive",
         _ => "generated programs",
     }
